@@ -660,6 +660,25 @@ func (sm SerialMessage) WalkAddrs(nbf *NomsBinFormat, cb func(addr hash.Hash) er
 			if err = cb(hash.New(mergeState.FromCommitAddrBytes())); err != nil {
 				return err
 			}
+			if mergeState.PreMergeHeadCommitAddrLength() != 0 {
+				if err = cb(hash.New(mergeState.PreMergeHeadCommitAddrBytes())); err != nil {
+					return err
+				}
+			}
+		}
+		// An in-progress rebase can be aborted back to its pre-rebase working root and resumed onto its onto
+		// commit: both are dereferenced through this working set and have to be reported.
+		rebaseState, err := msg.TryRebaseState(nil)
+		if err != nil {
+			return err
+		}
+		if rebaseState != nil {
+			if err = cb(hash.New(rebaseState.PreWorkingRootAddrBytes())); err != nil {
+				return err
+			}
+			if err = cb(hash.New(rebaseState.OntoCommitAddrBytes())); err != nil {
+				return err
+			}
 		}
 	case serial.RootValueFileID:
 		var msg serial.RootValue
